@@ -18,7 +18,8 @@ RULE = ('estimated models (2..6 states, all label alphabets, lag 1..4), disjoint
         'state; overlapping / absent states rejected. Non-trivial: >= 1 closed event and >= 1 frame '
         'outside both basins.'
         ' Added classes: the sampling table itself against the exact model (as in C07), a transition of probability < 1e-5, a lag of 1e6 frames (durations x lag > 2^31), > 64/128 states, > 2^20 steps (pathways vs md extraction of the chain from the same generator state), related history first.'
-        ' Later: NumPy int8/int16 lag times with long events (histogram form), alphabets with a negative label and largest label n-1, a deterministic 1025-state cycle (every event lasts 1024 steps).')
+        ' Later: NumPy int8/int16 lag times with long events (histogram form), alphabets with a negative label and largest label n-1, a deterministic 1025-state cycle (every event lasts 1024 steps).'
+        ' Fifth/sixth batch: 129..257-state models with pathway keys checked against the exact model, absent basin labels congruent to existing ones in narrow types, unsigned lag types.')
 TRUSTED = ['generator uniformity (the distributional sentence of the property reduces to C07 + this coupling)']
 ASSUMPTIONS = []
 BATCH = 40
